@@ -28,16 +28,21 @@
 (*                                                                          *)
 (* Constants select the mechanism variants: the values "as coded" are        *)
 (* FlagPolicy = "as_coded", CopyRows = TRUE, CheckSig = TRUE.  TLC finds the  *)
-(* counterexample Eval(m1, w); Eval(m2, w) for the first; with FlagPolicy =   *)
-(* "fresh_only" (mark only objects built by the evaluation itself - the       *)
-(* proposed repair) the property holds in the model.  The other two variants  *)
-(* (CopyRows = FALSE, CheckSig = FALSE) are the designs of the mutants in     *)
-(* /verif/mutants/C12: TLC shows they break the property.                     *)
+(* counterexample Eval(m1, w); Eval(m2, w) for the first.  FlagPolicy =       *)
+(* "per_machine" (the mark names the machine that set it; the repair proposed *)
+(* in fixes_proposed, compatible with the pinned tests) removes every         *)
+(* counterexample across machines and leaves Eval(m1, w); Assign(m1, w);      *)
+(* Eval(m1, w) - a result of the second evaluation that depends on the first. *)
+(* With "fresh_only" (mark only objects built by the evaluation itself) the   *)
+(* property holds in the model; the pinned test-suite asserts the opposite    *)
+(* for x87 registers, so that variant is documented, not proposed.  The other *)
+(* two variants (CopyRows = FALSE, CheckSig = FALSE) are the designs of the   *)
+(* mutants in /verif/mutants/C12: TLC shows they break the property.          *)
 (* Every behaviour of this model is also an implementation test: vf/c12.py    *)
 (* replays them and compares the results the model predicts (res) with the    *)
 (* rendering of what the code returned (model-to-code conformance).           *)
 EXTENDS Naturals, Sequences, FiniteSets, TLC
-CONSTANTS FlagPolicy,   \* "as_coded" | "fresh_only"
+CONSTANTS FlagPolicy,   \* "as_coded" | "per_machine" | "fresh_only"
           CopyRows,     \* TRUE as coded
           CheckSig,     \* TRUE as coded
           MaxCalls,     \* bound on the number of calls
@@ -45,7 +50,6 @@ CONSTANTS FlagPolicy,   \* "as_coded" | "fresh_only"
 
 Machines == {"m1", "m2"}
 Nodes == {"w", "c1", "c7", "U"}
-BoundTo(m, n) == IF m = "m2" /\ n = "w" THEN "c7" ELSE "none"      \* pool of m2 binds w to the node c7
 Render(n) == CASE n = "w" -> "w" [] n = "c1" -> "0x1" [] n = "c7" -> "0x7" [] n = "U" -> "(w+0x1)"
 IsInt(n) == n \in {"c1", "c7"}
 Sub(e) == IF e = "U" THEN {"U", "w", "c1"} ELSE {e}
@@ -69,15 +73,18 @@ Written(f, g) == IF Accepts(f, g) THEN f ELSE [sig |-> Sig(g), tab |-> Tab(g), o
 InitRows == [modrm45 |-> [imm |-> "u08", ad |-> "True", size |-> "none"],
              r_cl    |-> [imm |-> "none", ad |-> "False", size |-> "u08"]]
 
-VARIABLES isEval, simp,   \* memo attributes per node
+VARIABLES isEval, simp,   \* memo attributes per node: isEval[n] = "none" or the machine that marked n last
+          bound,          \* bound[m]: the pool of m binds w (to the node c7); m2 from the start, m1 after Assign
           rows,           \* decode tables
           file, inuse,    \* table files on disk (per grammar module name), tables used by this process
           cfg, hist,      \* cache configuration at process start, calls so far
           res, exp        \* result of the last call as coded / as the specification of a pure API demands
-vars == <<isEval, simp, rows, file, inuse, cfg, hist, res, exp>>
+vars == <<isEval, simp, bound, rows, file, inuse, cfg, hist, res, exp>>
+BoundTo(m, n) == IF n = "w" /\ bound[m] THEN "c7" ELSE "none"
 
 Init == /\ cfg \in Cfgs
-        /\ isEval = [n \in Nodes |-> FALSE] /\ simp = [n \in Nodes |-> FALSE]
+        /\ isEval = [n \in Nodes |-> "none"] /\ simp = [n \in Nodes |-> FALSE]
+        /\ bound = [m \in Machines |-> m = "m2"]
         /\ rows = InitRows
         /\ inuse = [g \in Grammars |-> Loaded(FileOf(cfg, g), g)]        \* import: LoadTables
         /\ file = [g \in Grammars |-> Written(FileOf(cfg, g), g)]
@@ -85,22 +92,25 @@ Init == /\ cfg \in Cfgs
 
 Call(c) == Len(hist) < MaxCalls /\ hist' = Append(hist, c) /\ UNCHANGED cfg
 
-Mark(ev, n, fresh) == IF FlagPolicy = "as_coded" \/ fresh THEN [ev EXCEPT ![n] = TRUE] ELSE ev
+\* ret.is_eval = True (as coded) / = self.eval_mark (per machine) / only on objects built by this evaluation
+Mark(ev, n, m) == IF FlagPolicy = "fresh_only" THEN ev ELSE [ev EXCEPT ![n] = m]
+\* if e.is_eval: return e (as coded) / if e.is_eval is self.eval_mark (per machine)
+Marked(ev, n, m) == IF FlagPolicy = "per_machine" THEN ev[n] = m ELSE ev[n] # "none"
 
 \* eval_expr on a leaf node n: <<returned node, is_eval attributes afterwards>>
 EvalLeaf(m, n, ev) ==
-   IF ev[n] THEN <<n, ev>>
+   IF Marked(ev, n, m) THEN <<n, ev>>
    ELSE LET ret == IF BoundTo(m, n) # "none" THEN BoundTo(m, n) ELSE n   \* the input node itself or the pool's value object
-        IN <<ret, Mark(ev, ret, FALSE)>>
+        IN <<ret, Mark(ev, ret, m)>>
 
 \* what a pure evaluation returns: substitution of the pool into the expression
-SpecEval(m, e) == IF e = "U" THEN (IF m = "m2" THEN "0x8" ELSE "(w+0x1)")
+SpecEval(m, e) == IF e = "U" THEN (IF bound[m] THEN "0x8" ELSE "(w+0x1)")
                   ELSE IF BoundTo(m, e) # "none" THEN Render(BoundTo(m, e)) ELSE Render(e)
 
 Eval(m, e) ==
    /\ Call([op |-> "eval", m |-> m, e |-> e])
    /\ exp' = SpecEval(m, e)
-   /\ IF isEval[e] THEN res' = Render(e) /\ UNCHANGED <<isEval, simp>>
+   /\ IF Marked(isEval, e, m) THEN res' = Render(e) /\ UNCHANGED <<isEval, simp>>
       ELSE /\ simp' = [n \in Nodes |-> simp[n] \/ n \in Sub(e)]          \* e.visit(expr_simp)
            /\ IF e = "U"
               THEN LET a == EvalLeaf(m, "w", isEval)
@@ -109,14 +119,22 @@ Eval(m, e) ==
                       /\ isEval' = b[2]                                   \* the result node is fresh
               ELSE LET a == EvalLeaf(m, e, isEval)
                    IN res' = Render(a[1]) /\ isEval' = a[2]
-   /\ UNCHANGED <<rows, file, inuse>>
+   /\ UNCHANGED <<bound, rows, file, inuse>>
+
+\* eval_instr([w = 7]) on m: the pool of m binds w from now on (the source is a fresh constant)
+Assign(m) ==
+   /\ Call([op |-> "assign", m |-> m, e |-> "w"])
+   /\ ~bound[m]
+   /\ bound' = [bound EXCEPT ![m] = TRUE]
+   /\ res' = "[]" /\ exp' = "[]"
+   /\ UNCHANGED <<isEval, simp, rows, file, inuse>>
 
 Simp(e) ==
    /\ Call([op |-> "simp", m |-> "", e |-> e])
    /\ exp' = Render(e)                                                   \* both trees are in normal form
    /\ res' = Render(e)                                                   \* if e.simp: return e / fixpoint loop
    /\ simp' = [n \in Nodes |-> simp[n] \/ n \in Sub(e)]
-   /\ UNCHANGED <<isEval, rows, file, inuse>>
+   /\ UNCHANGED <<isEval, bound, rows, file, inuse>>
 
 \* dis(8b4508): get_afs copies the row (or not), then writes the displacement into it
 DisMov ==
@@ -127,7 +145,7 @@ DisMov ==
       ELSE LET a == [row EXCEPT !.imm = "8", !.size = "u32", !.ad = "u32"] IN      \* a[imm] = disp; a[ad] = a[size]
            /\ res' = "mov eax, DWORD PTR [ebp+" \o a.imm \o "]"
            /\ rows' = IF CopyRows THEN rows ELSE [rows EXCEPT !.modrm45 = a]
-   /\ UNCHANGED <<isEval, simp, file, inuse>>
+   /\ UNCHANGED <<isEval, simp, bound, file, inuse>>
 
 \* dis(d3e0): the operand IS the table row r_cl; the fix-up loop writes only to operands without `ad`
 \* or with ad == True, which r_cl is not
@@ -137,15 +155,16 @@ DisShl ==
    /\ LET a == rows.r_cl IN
       /\ res' = IF a.size = "u08" /\ a.ad = "False" THEN "sal eax, cl" ELSE "sal eax, ?"
       /\ rows' = IF a.ad = "True" THEN [rows EXCEPT !.r_cl = [a EXCEPT !.ad = a.size]] ELSE rows
-   /\ UNCHANGED <<isEval, simp, file, inuse>>
+   /\ UNCHANGED <<isEval, simp, bound, file, inuse>>
 
 Asm(g) ==
    /\ Call([op |-> "asm", m |-> "", e |-> g])
    /\ exp' = "parsed with " \o Tab(g)
    /\ res' = "parsed with " \o inuse[g]
-   /\ UNCHANGED <<isEval, simp, rows, file, inuse>>
+   /\ UNCHANGED <<isEval, simp, bound, rows, file, inuse>>
 
 Next == \/ \E m \in Machines, e \in {"w", "U"} : Eval(m, e)
+        \/ Assign("m1")
         \/ \E e \in {"w", "U"} : Simp(e)
         \/ DisMov \/ DisShl
         \/ \E g \in Grammars : Asm(g)
